@@ -116,3 +116,28 @@ def contract_samples(run, c, keys, limit=None):
             inputs, clause, nat = fails[0]
             run.violation("bounded:%s#%s" % (con.name, clause), clause, "%s violates clause '%s'" % (con.describe(inputs), clause),
                           con.replay_script(inputs, clause))
+
+
+def history_samples(run, c, keys, what="call histories on one object / in one interpreter"):
+    """bounded stand-in: the native history harness of each contract (same object used twice, state changed in between, file rewritten in
+    place ...) run on the tree as it is -- also when the frame obligation keeps_no_state_between_calls sees nothing to look into"""
+    import time
+    t0 = time.time()
+    n = 0
+    fails = []
+    for k in keys:
+        con = c.contracts.get(k)
+        hs = getattr(con, "history_search", None) if con is not None else None
+        if hs is None:
+            continue
+        n += 1
+        try:
+            found = hs(run)
+        except Exception:
+            continue
+        if found:
+            fails.append((con, found))
+    run.add_bounded("history harnesses of %d contracts" % n, what, "each contract's history_search() (repeated calls, in-place changes between calls)",
+                    n, [f[1][1] for f in fails], seconds=time.time() - t0)
+    for con, (clause, desc, script) in fails[:2]:
+        run.violation("bounded:history:%s" % con.name, clause, desc, script)
